@@ -1,17 +1,18 @@
-\* exhaustive plan enumeration (no VIEW): accepted create, then every sequence of 2 calls with every fault position
+\* negative control (MUST violate NoRespLeak): a get / list whose store read fails answers from an unmasked copy of the record
 SPECIFICATION Spec
 CHECK_DEADLOCK FALSE
-INVARIANTS PlanOut
+VIEW view
+INVARIANTS TypeOK NoLogLeak NoRespLeak
 CONSTANTS
   Kinds = {"token", "userpass", "kafka", "kafka_off"}
-  CreateFaults = {0}
-  ReadFaults = {0, 1, 90}
+  CreateFaults = {0, 1, 2, 3, 4, 5, 6, 95, 97, 98, 99}
+  ReadFaults = {0, 1, 2, 90}
   PauseFaults = {0, 1, 2}
   ResumeFaults = {0, 1, 2, 3, 99}
   DeleteFaults = {0, 1, 2, 3}
   RestartFaults = {0, 2, 3, 4, 99}
   WithDupCreate = TRUE
-  MaxOps = 3
+  MaxOps = 6
   MaskOnCreateFail = TRUE
   MaskOnConnectFail = TRUE
   MaskSasl = TRUE
@@ -19,4 +20,4 @@ CONSTANTS
   NoDecodeEcho = TRUE
   Spellings = {"canon", "cap", "upper", "mixed"}
   MaskDecoded = TRUE
-  ReadFailIsError = TRUE
+  ReadFailIsError = FALSE
